@@ -636,6 +636,14 @@ pub fn format_symbol(
         .map(|x| x.to_owned())
         .collect();
     wanted_trailing_trivia.append(&mut formatted_trailing_trivia);
+
+    // If comments in front of the symbol have put it onto a new line, the whitespace the wanted symbol starts with
+    // (e.g. the space of ` = `) would be the indentation of that line: indent the symbol like the comments instead
+    if !wanted_leading_trivia.is_empty()
+        && matches!(formatted_leading_trivia.last(), Some(token) if trivia_util::trivia_is_newline(token))
+    {
+        wanted_leading_trivia = vec![create_indent_trivia(ctx, shape)];
+    }
     formatted_leading_trivia.append(&mut wanted_leading_trivia);
 
     TokenReference::new(
